@@ -47,6 +47,9 @@ WHAT = {
         "sidecar path with a Sidecar resource: an ExternalName alias of a service is honoured iff the egress entries that imported "
         "the CONCRETE service also match the alias hostname, not iff the Sidecar imports the ExternalName service: an alias imported "
         "through another entry is unreachable (502 under REGISTRY_ONLY), an alias that is not imported is routed",
+    "table-service-vhost": "sidecar route configuration: a service the proxy sees on the listener port (HTTP, not an Alias) is not "
+                           "reachable by its FQDN - no virtual host carries it as a domain",
+    "table-catch-all": "sidecar route configuration: not exactly one virtual host with the domain \"*\"",
     "mesh-decision": "end to end (virtual-host selection by authority, then first matching route) the real sidecar route configuration "
                      "decides a request differently from the applicable VirtualService / default route",
     "alt-host-sound":
@@ -126,10 +129,13 @@ def oracle(ctx, stream, case_lines, rep):
 
 
 def cert_stats(ctx):
-    """On how many generated rds builds / requests do the hypotheses of sidecar_rds_correct hold?  The driver evaluates
-    rdsCert, certVSHosts, certRegistry per build and meshSide per request (stream name `certs-rds`, nothing is compared
-    with the implementation) and, where they hold, whether the theorem's model sidecarRDS yields the same virtual-host
-    table as the full model sidecarRDSFull that the rds stream ties to the real code."""
+    """On how many generated rds builds / requests do the hypotheses of sidecar_rds_correct hold, and what do the
+    generated requests exercise?  The driver (stream name `certs-rds`, nothing is compared with the implementation)
+    evaluates rdsCert, certVSHosts, certRegistry per build and meshSide per request; on EVERY build where they hold it
+    compares the theorem's model sidecarRDS with the full model sidecarRDSFull that the rds stream ties to the real
+    code (`models=1/0`; `-` = hypotheses do not hold = build not covered by the theorem).  It also names, per request,
+    the clause of the spec that answers it (`why=`) and per build the policy in force, port 80, Sidecar scope and the
+    number of VirtualService hosts outside the registry."""
     g = os.path.join(ctx.work, "rds.gen.ops")
     if not os.path.exists(g):
         return
@@ -140,22 +146,47 @@ def cert_stats(ctx):
         return
     ops = ctx.read_lines(g)
     cert = False
+    T = "thm.sidecar_rds_correct."
     for op, l in zip(ops, ctx.read_lines(out)):
         if l.startswith("cert="):
             kv = dict(x.split("=") for x in l.split())
             cert = kv["cert"] == "1"
-            ctx.count("thm.sidecar_rds_correct.builds")
-            ctx.count("thm.sidecar_rds_correct.builds_hyp_true", int(cert))
-            ctx.count("thm.sidecar_rds_correct.builds_certNoDrop_true", int(kv["noDrop"] == "1"))
-            ctx.count("thm.sidecar_rds_correct.builds_certVSHosts_true", int(kv["vsHosts"] == "1"))
-            ctx.count("thm.sidecar_rds_correct.builds_model_eq_full_model", int(kv["models"] == "1"))
-            if kv["models"] == "0":
+            ctx.count(T + "builds")
+            ctx.count(T + "builds_hyp_true", int(cert))
+            ctx.count(T + "builds_certNoDrop_true", int(kv["noDrop"] == "1"))
+            ctx.count(T + "builds_certVSHosts_true", int(kv["vsHosts"] == "1"))
+            ctx.count(T + "builds_model_eq_full_model", int(kv["models"] == "1"))
+            ctx.count(T + "builds_not_covered", int(kv["models"] == "-"))
+            if kv["models"] == "0" or (cert and kv["models"] != "1"):
                 ctx.tie_broken("certs-rds:model", "hypotheses of sidecar_rds_correct hold but its model sidecarRDS and the full "
                                "model sidecarRDSFull (the one tied to the real code) build different virtual-host tables", {"op": op})
+            ctx.count("rds.builds.port80", int(kv.get("port80") == "1"))
+            ctx.count("rds.builds.policy_" + kv.get("policy", "?"))
+            ctx.count("rds.builds.under_sidecar_resource", int(kv.get("sidecar") == "1"))
+            ctx.count("rds.builds.with_hosts_outside_registry", int(kv.get("stray", "0") != "0"))
         elif l.startswith("side="):
-            ctx.count("thm.sidecar_rds_correct.requests")
-            ctx.count("thm.sidecar_rds_correct.requests_meshSide_true", int(l == "side=1"))
-            ctx.count("thm.sidecar_rds_correct.requests_all_hyp_true", int(l == "side=1" and cert))
+            kv = dict(x.split("=") for x in l.split())
+            ctx.count(T + "requests")
+            ctx.count(T + "requests_meshSide_true", int(kv["side"] == "1"))
+            ctx.count(T + "requests_all_hyp_true", int(kv["side"] == "1" and cert))
+            # which clause of the spec answers: vs-rule / vs-404 (a VirtualService serves the addressed service: a rule
+            # fires / none does), default route, stray-* (VirtualService host outside the registry), policy, silent
+            ctx.count("rds.requests.spec_" + kv.get("why", "?"))
+
+
+def decision_stats(ctx, stream, req_op):
+    """Decision distribution of an end-to-end stream as the REAL code answered (first token of the decision)."""
+    g = os.path.join(ctx.work, "%s.gen.ops" % stream)
+    impl = os.path.join(ctx.work, "%s.run.impl" % stream)
+    if not (os.path.exists(g) and os.path.exists(impl)):
+        return
+    for op, l in zip(ctx.read_lines(g), ctx.read_lines(impl)):
+        if op.startswith(req_op + " "):
+            d = l.split(" ")[0]
+            kind = d.split(":")[0][:12] if ":" in d else d[:12]
+            if kind == "fwd":
+                kind = "fwd_passthrough" if "PassthroughCluster" in d else "fwd_cluster"
+            ctx.count("%s.decision.%s" % (stream, kind))
 
 
 def nontrivial(case_ops, outs):
@@ -186,8 +217,23 @@ def run(ctx):
         "a regex is an opaque predicate text -> (string -> Bool) shared by source and target semantics; the table is computed by Go's RE2 "
         "engine (full match) at generation time; the only fact used about it is DotStar (`.*` accepts every path)",
         "requests are origin-form (path starts with '/'), header names are lower-case and single-valued; header keys uri/scheme/method/"
-        "authority (documented as ignored, but translated literally by the code), :path, JWT-claim keys are outside the grammar",
-        "inputs are post-merge VirtualServices (delegates resolved, gateway names resolved to ns/name)",
+        "authority (documented as ignored, but translated literally by the code) and :path are outside the grammar; JWT-claim keys "
+        "(@request.auth.claims...) are modelled as dynamic-metadata matchers and generated for gateway-bound VirtualServices only",
+        "inputs are post-merge VirtualServices (delegates resolved, gateway names resolved to ns/name); short host names ARE resolved by "
+        "the real code in stream rds (spec: relative to the VirtualService's namespace); a VirtualService is identified by name AND "
+        "namespace (the same name in two namespaces is generated on both end-to-end paths), never two with the same name in one namespace",
+        "sidecar_rds_correct is a statement about meshes satisfying certVSHosts: outbound traffic policy in force = plain ALLOW_ANY, no "
+        "Resolution: Alias and no headless service, HTTP ports only, lower-case hostnames, listener port other than 80, every "
+        "VirtualService host names or matches a service of the port; certVSHosts / certRegistry are not used by the proof - they delimit "
+        "where its model is claimed to be the code's behaviour, which the driver checks on every generated build that satisfies them; "
+        "m.proxyDomain is not tied to c.proxyNamespace by a hypothesis (the driver sets both from the proxy's namespace)",
+        "CODE-DERIVED parts of the end-to-end specs (no API text): which VirtualService hosts outside the registry get a virtual host "
+        "(strayHosts: port 80, or the VirtualService also serves an HTTP service of the port); precedence among competing VirtualServices "
+        "by export class before age (exported to own namespace only > exported to the proxy's namespace by name > public); merge order of "
+        "several VirtualServices on one gateway host (mergedSpec follows SortVHostRoutes); alias handling under a Sidecar (F-C12-9)",
+        "end-to-end streams: proxies are IPv4-only sidecars / routers, at most one Sidecar resource per mesh (own namespace with or without "
+        "workloadSelector, or root namespace), service ports are HTTP or TCP (no sniffing, no HTTP_PROXY / port 0 listeners), no exportTo on "
+        "services, no delegates; BuildHTTPRoutes is called directly (not through the discovery server's generator wrapper)",
         "side conditions of vs_compile_correct: no withoutHeaders pattern that accepts \"\" for an absent header (finding F-C12-1), "
         "redirect code in {0,301,302,303,307,308} (enforced by the validator after the F-C12-2 fix), no gateway-semantics prefix '//'",
     ]
@@ -208,12 +254,18 @@ def run(ctx):
                 last = out.strip().split("\n")[-1] if out.strip() else ""
                 if rc != 0 or not last.endswith("invalid 0"):
                     ctx.tie_broken("corpus-validity:" + f, "corpus file contains a VirtualService the real validator rejects:\n" + out[-2000:])
+    # the end-to-end streams build a real push context per shrink step: cap the delta-debugging rounds
+    full_shrink = ctx.shrink
+    ctx.shrink = lambda stream, lines, max_rounds=200: full_shrink(
+        stream, lines, max_rounds=60 if stream.endswith(("rds", "gw")) else max_rounds)
     ctx.diff_stream("routes", ctx.n(3000, 150000), oracle=oracle, nontrivial=nontrivial)
     ctx.diff_stream("requests", ctx.n(4000, 200000), oracle=oracle, nontrivial=nontrivial)
     ctx.diff_stream("vhosts", ctx.n(2500, 100000), oracle=oracle, nontrivial=nontrivial)
     ctx.diff_stream("rds", ctx.n(1000, 25000), oracle=oracle, nontrivial=nontrivial)
     ctx.diff_stream("gw", ctx.n(800, 25000), oracle=oracle, nontrivial=nontrivial)
     cert_stats(ctx)
+    decision_stats(ctx, "rds", "rreq")
+    decision_stats(ctx, "gw", "greq")
     # witnesses of the known findings (corpus only): each must still reproduce, as KNOWN-FINDING
     ctx.diff_stream("known-requests", 0, oracle=oracle, nontrivial=nontrivial)
     ctx.diff_stream("known-rds", 0, oracle=oracle, nontrivial=nontrivial)
@@ -300,10 +352,13 @@ MANIFEST = {
                    "mergedSpec_single reduces it to vsSpec; the gateway virtual-host table (gwDomains) is compared by the driver, not "
                    "proved. Also code-derived: which VirtualService hosts outside the registry get a virtual host (strayHosts: port 80, "
                    "or the VirtualService also serves a service of the port). Not modelled: retries/timeouts/fault/mirror/header "
-                   "manipulation/rewrite, delegate merge, Gateway API conversion, DestinationRule objects (subsets are strings), "
-                   "listener port 0 / HTTP_PROXY and mergeAllVirtualHosts, gateway/ingress-semantics VirtualServices on the sidecar "
-                   "path, sniffed route names, non-HTTP ports, exportTo, the discovery server's RDS generator wrapper (BuildHTTPRoutes "
-                   "is called directly). Known findings F-C12-1 (withoutHeaders pattern accepting the empty string), F-C12-4 "
+                   "manipulation/rewrite, delegate merge, Gateway API conversion and the gateway-semantics branches (incl. the gwMatch "
+                   "ordering loop of SelectVirtualServices), listener port 0 / HTTP_PROXY and mergeAllVirtualHosts, sniffed route names "
+                   "and protocol sniffing, proxyless-gRPC host:port domains (end to end; the domain generator is covered piecewise by "
+                   "stream vhosts), exportTo on services, several Sidecar resources in one mesh, IPv6 / dual-stack proxies, the "
+                   "discovery server's RDS generator wrapper (BuildHTTPRoutes is called directly); DestinationRule objects are present "
+                   "in a quarter of the rds cases only to show they do not change a decision (hash policies are not compared). "
+                   "Known findings F-C12-1 (withoutHeaders pattern accepting the empty string), F-C12-4 "
                    "(destination port resolved against the port-restricted registry), F-C12-6 (younger VirtualService with the same "
                    "wildcard host ignored), F-C12-9 (alias import decided by the concrete service's egress entry); fixed F-C12-2, -3, "
                    "-5, -7, -8."),
